@@ -13,6 +13,7 @@ import (
 	"fmt"
 	"os"
 	"path/filepath"
+	"runtime/pprof"
 
 	"github.com/lyraproj/issue/issue"
 	"github.com/lyraproj/pcore/pcore"
@@ -248,6 +249,11 @@ func main() {
 		"deserializer with all clauses checked; non-trivial = the emitted stream contains at least one back-reference; " +
 		"distinct = distinct (value, scenario, configuration)"
 	pcore.SetLogger(nullLogger{})
+	if pf := os.Getenv("C10_CPUPROFILE"); pf != "" {
+		f, _ := os.Create(pf)
+		_ = pprof.StartCPUProfile(f)
+		defer pprof.StopCPUProfile()
+	}
 	ck := &checker{cfg: cfg, res: res, files: map[string]*lib.CasesFile{}, classes: map[string]*vclass{}}
 	pcore.Do(func(root px.Context) {
 		if cfg.Replay != "" {
@@ -289,20 +295,21 @@ func (ck *checker) run(root px.Context, rng *lib.Rng) {
 		}
 		return []bool{false}
 	}
-	pick := func(r *lib.Rng, k int) func(int) bool {
+	pick := func(r *lib.Rng, k, n int) func(int) bool {
 		chosen := map[int]bool{}
-		for len(chosen) < k {
-			chosen[r.Intn(len(cfgs))] = true
+		for len(chosen) < k && len(chosen) < n {
+			chosen[r.Intn(n)] = true
 		}
 		return func(i int) bool { return chosen[i] }
 	}
 	// 1. corpus
 	for _, s := range corpus() {
 		for _, reg := range scenarios(s) {
-			ck.checkValue(root, s, reg, cfgs, pick(rng.Fork(), 5), "corpus", false)
+			ck.checkValue(root, s, reg, cfgs, pick(rng.Fork(), 5, len(cfgs)), "corpus", false)
 		}
 	}
-	// 2. bounded-exhaustive sharing families
+	// 2. bounded-exhaustive sharing families; in the quick tier the longer arrays run a rotating quarter
+	// of the matrix each (every configuration is met by a quarter of the values)
 	maxLen := 3
 	coqEvery := 3
 	if thorough {
@@ -316,12 +323,21 @@ func (ck *checker) run(root px.Context, rng *lib.Rng) {
 		if n%coqEvery == 0 {
 			k = 1
 		}
-		ck.checkValue(root, s, false, cfgs, pick(rng.Fork(), k), "exhaustive", false)
+		sel := cfgs
+		if !thorough && len(s.E) > 2 {
+			sel = nil
+			for i, c := range cfgs {
+				if (i+n)%4 == 0 {
+					sel = append(sel, c)
+				}
+			}
+		}
+		ck.checkValue(root, s, false, sel, pick(rng.Fork(), k, len(sel)), "exhaustive", false)
 	}
 	ck.res.Extra["exhaustive_values"] = n
 	ck.res.Extra["exhaustive_max_len"] = maxLen
 	ck.res.Extra["configurations"] = len(cfgs)
-	// 3. seeded random
+	// 3. seeded random; quick tier: a random third of the matrix per value
 	nRandom, perValue := 260, 3
 	if thorough {
 		nRandom, perValue = 6000, 1
@@ -330,8 +346,18 @@ func (ck *checker) run(root px.Context, rng *lib.Rng) {
 		r := rng.Fork()
 		g := newGen(r)
 		s := g.top()
+		sel := cfgs
+		if !thorough {
+			sel = nil
+			off := r.Intn(3)
+			for i, c := range cfgs {
+				if (i+off)%3 == 0 {
+					sel = append(sel, c)
+				}
+			}
+		}
 		for _, reg := range scenarios(s) {
-			ck.checkValue(root, s, reg, cfgs, pick(r, perValue), "random", false)
+			ck.checkValue(root, s, reg, sel, pick(r, perValue, len(sel)), "random", false)
 		}
 	}
 }
